@@ -2,8 +2,8 @@
   Model/MetaImage.lean — the native MetaImage (.mha) header writer / reader of deepali and the
   channel-axis shuffle between tensor order `(C, …, X)` and file order `(…, X[, C])`.
   src: src/deepali/utils/imageio/meta.py
-         write_meta_image @74-102, meta_image_bytes @309-428,
-         read_meta_image_from_fileobj @178-305, read_meta_image @25-71,
+         write_meta_image @74-102, meta_image_bytes @310-429,
+         read_meta_image_from_fileobj @178-306, read_meta_image @25-71,
          META_IMAGE_TAGS @126-161, META_IMAGE_TYPES @163-174
        src/deepali/utils/simpleitk/torch.py image_from_tensor @29-34, tensor_from_image @55-58
        (the same two axis shuffles).
@@ -15,9 +15,8 @@
   itself), zlib, `numpy.tobytes/frombuffer`.  numpy arrays are modelled by their row-major
   ravel (`List α`) — `reshape` does not move data, `transpose` is an index permutation.
 
-  The model follows the code AS IT STANDS (`Fix.none`): `TransformMatrix` is reshaped to 3×3
-  whatever `NDims` is (F-18b) and `ElementNumberOfChannels > 1` ends in a `TypeError` (F-18c).
-  `Fix.proposed` is the reader with the two one-line repairs of FINDINGS_C18.md applied.
+  The model follows the code as it is after the `fix:` commits c9805be (integer header fields are
+  Python ints) and f7684dd (`TransformMatrix` is reshaped to NDims × NDims).
 -/
 namespace Deepali.MetaIO
 
@@ -292,13 +291,6 @@ def serialise (h : Header α) : Except IOErr (List (Line α)) := dictLines (head
 
 /-! ### reader -/
 
-/-- which of the repairs proposed in FINDINGS_C18.md the reader has. `none` = the code as it is. -/
-inductive Fix | none | proposed
-  deriving DecidableEq, Repr
-
-/-- @249 `.reshape(3, 3)`: 3 whatever `NDims` is (F-18b); the repair uses `NDims`. -/
-def Fix.matrixDim (fix : Fix) (ndims : Nat) : Nat := match fix with | .none => 3 | .proposed => ndims
-
 /-- @184-205: `meta_in`, the raw value per key (later lines win), up to and including
     `ElementDataFile` — whose value must be `LOCAL` — which must be present.  Keys that are not
     tags are stored by the code and never looked at again; they are dropped here.
@@ -328,12 +320,11 @@ def toInts : List (Tok α) → Except IOErr (List Nat)
   | .nat n :: ts => do let r ← toInts ts; pure (n :: r)
   | _ :: _ => .error .value
 
-/-- @209-260: typecast of one raw value. `ndims` = the value of the `NDims` line (used by the
-    repaired reader only). -/
-def readVal (fix : Fix) (ndims : Nat) (t : Tag) (toks : List (Tok α)) : Except IOErr (MVal α) :=
+/-- @209-261: typecast of one raw value. `ndims` = `int(meta_in.get("NDims", 3))` @249. -/
+def readVal (ndims : Nat) (t : Tag) (toks : List (Tok α)) : Except IOErr (MVal α) :=
   match t.rclass with
   | .str => .ok (.raw toks)
-  | .uint => match toks with                                      -- np.uintp(value)
+  | .uint => match toks with                                      -- int(value) @230
       | [.nat n] => .ok (.nat n)
       | _ => .error .value
   | .bool => match toks with                                      -- value.upper() == "TRUE"
@@ -342,9 +333,8 @@ def readVal (fix : Fix) (ndims : Nat) (t : Tag) (toks : List (Tok α)) : Except 
   | .floats => do let xs ← toFloats toks; pure (.arr xs)
   | .matrix => do
       let xs ← toFloats toks
-      -- @249 `.reshape(3, 3).transpose()`  (F-18b: 3 whatever NDims is)
-      let n := fix.matrixDim ndims
-      if xs.length = n * n then pure (.mat n (transposeFlat n xs)) else .error .value
+      -- @249-250 `.reshape(ndims, ndims).transpose()`
+      if xs.length = ndims * ndims then pure (.mat ndims (transposeFlat ndims xs)) else .error .value
   | .ints => do let ns ← toInts toks; pure (.narr ns)
   | .float => match toks with
       | [.nat n] => .ok (.num (n : α))
@@ -356,14 +346,14 @@ def readVal (fix : Fix) (ndims : Nat) (t : Tag) (toks : List (Tok α)) : Except 
           | none => .error .value
       | _ => .error .value
 
-/-- @208-260 over all tags. -/
-def readDict (fix : Fix) (raw : Tag → Option (List (Tok α))) : Except IOErr (Dict α) := do
+/-- @208-261 over all tags. -/
+def readDict (raw : Tag → Option (List (Tok α))) : Except IOErr (Dict α) := do
   let ndims : Nat := match raw .nDims with | some [.nat n] => n | _ => 3
   Tag.all.foldr (fun t acc =>
     match raw t with
     | none => acc
     | some toks => do
-        let v ← readVal fix ndims t toks
+        let v ← readVal ndims t toks
         let m ← acc
         pure (m.set t v)) (.ok Dict.empty)
 
@@ -384,22 +374,19 @@ def Dict.getArr (m : Dict α) (t : Tag) : Option (List α) := match m t with | s
 def Dict.getMat (m : Dict α) (t : Tag) : Option (List α) := match m t with | some (.mat _ xs) => some xs | _ => none
 def Dict.getBool (m : Dict α) (t : Tag) : Bool := match m t with | some (.bool b) => b | _ => false
 
-/-- @263-296 (only what depends on the header) and read_meta_image @52-66. -/
-def readMeta (fix : Fix) (m : Dict α) : Except IOErr (ReadMeta α) :=
-  -- @263 `np.asarray(meta["DimSize"]).copy()[::-1]` (None: IndexError)
+/-- @264-297 (only what depends on the header) and read_meta_image @52-66. -/
+def readMeta (m : Dict α) : Except IOErr (ReadMeta α) :=
+  -- @264 `np.asarray(meta["DimSize"]).copy()[::-1]` (None: IndexError)
   match m .dimSize with
   | some (.narr dimSize) =>
-    -- @264-267 `(meta.get("ElementNumberOfChannels") or 1) > 1`
+    -- @265-268 `(meta.get("ElementNumberOfChannels") or 1) > 1`
     let nch := (m.getNat .elementNumberOfChannels).getD 1
-    -- @268 `np.dtype(meta["ElementType"])` (`np.dtype(None)` is float64)
+    -- @269 `np.dtype(meta["ElementType"])` (`np.dtype(None)` is float64)
     let et := match m .elementType with | some (.etype e) => e | _ => ElemType.float64
     let compressed := m.getBool .compressedData
-    -- @265 `np.r_[shape, np.uintp]` is a float64 array (F-18c):
-    --   uncompressed: `range(shape[0])` @282 raises TypeError;
-    --   compressed: the two ValueError checks @274-277 come first, then `reshape(shape)` @296 raises TypeError
-    if compressed ∧ (m.getNat .compressedDataSize).isNone then .error .value          -- @274-275
-    else if compressed ∧ (m.getNat .headerSizePerSlice).isSome then .error .value     -- @276-277
-    else if 1 < nch ∧ fix = .none then .error .type
+    -- @266 `np.r_[shape, int]` stays an integer shape; @274-278 checks of the compressed branch
+    if compressed ∧ (m.getNat .compressedDataSize).isNone then .error .value          -- @275-276
+    else if compressed ∧ (m.getNat .headerSizePerSlice).isSome then .error .value     -- @277-278
     else
       -- read_meta_image @56-66
       let origin := (m.getArr .position).orElse fun _ => (m.getArr .origin).orElse fun _ => m.getArr .offset
@@ -411,10 +398,10 @@ def readMeta (fix : Fix) (m : Dict α) : Except IOErr (ReadMeta α) :=
   | _ => .error .value
 
 /-- the reader, header part: lines → what `Grid(...)` and the tensor are built from. -/
-def parse (fix : Fix) (lines : List (Line α)) : Except IOErr (ReadMeta α) := do
+def parse (lines : List (Line α)) : Except IOErr (ReadMeta α) := do
   let raw ← readRaw lines (fun _ => none)
-  let m ← readDict fix raw
-  readMeta fix m
+  let m ← readDict raw
+  readMeta m
 
 /-- a written header, seen from the reading side. -/
 def Header.toRead (h : Header α) : ReadMeta α :=
@@ -423,9 +410,9 @@ def Header.toRead (h : Header α) : ReadMeta α :=
     origin := some h.offset, spacing := some h.spacing, matrix := some h.direction }
 
 /-- write then read, header level. -/
-def roundtrip (fix : Fix) (h : Header α) : Except IOErr (ReadMeta α) := do
+def roundtrip (h : Header α) : Except IOErr (ReadMeta α) := do
   let lines ← serialise h
-  parse fix lines
+  parse lines
 
 end
 end Deepali.MetaIO
